@@ -935,7 +935,54 @@ def _exact_strategy(quick: bool):
     })
 
 
+def keys_eval(case: dict) -> _Collector:
+    """
+    Fresh keys per run, many runs in one process: several distinct key pairs are used one after the other, each loaded
+    from its serialised form, used for encode / decode and dropped again (so that a later key object may live where an
+    earlier one lived). The 2-DNF encryption must decode what it encoded under every one of them.
+    """
+    import gc
+
+    from ipv8.attestation.wallet.primitives.boneh import decode, encode, generate_keypair
+    from ipv8.attestation.wallet.primitives.structs import BonehPrivateKey
+    c = _Collector(case)
+    with _Seeded(case["seed"]):
+        blobs = []
+        for _ in range(case.get("keys", 3)):
+            _, sk = generate_keypair(32)
+            blobs.append(sk.serialize())
+        del sk
+        gc.collect()
+        for r in range(case.get("rounds", 18)):
+            sk = BonehPrivateKey.unserialize(blobs[(r * 7 + r // 3) % len(blobs)])
+            pk = sk.public_key()
+            for m in (0, 1, 2, 1):
+                try:
+                    got = decode(sk, [0, 1, 2], encode(pk, m))
+                except Exception as e:  # noqa: BLE001
+                    c.fail("B1", "decode:fresh_key", f"use {r} of a key loaded from its serialised form ({len(blobs)} distinct "
+                                                     f"keys used and dropped in turn): decode raised {type(e).__name__}: {e}")
+                    return c
+                if got != m:
+                    c.fail("B1", "decode:fresh_key", f"use {r} of a key loaded from its serialised form ({len(blobs)} distinct "
+                                                     f"keys used and dropped in turn): {m} encoded under its public key decodes "
+                                                     f"to {got}")
+                    return c
+            del sk, pk
+            gc.collect()
+    c.n = 16
+    return c
+
+
 def _hyp_exact_shard(ctx: Ctx, shard: int, nshards: int, n: int) -> None:
+    kc = {"part": "keys", "seed": ctx.seed * 100 + shard, "keys": 2 + shard % 3, "rounds": 18}
+    if not _gave_up(ctx, None, "exact", kc):
+        k = _limited(keys_eval, kc)
+        if not _gave_up(ctx, k, "exact", kc):
+            ctx.case(kc, not k.fails, cls="b:fresh_keys")
+            for v in k.fails.values():
+                ctx.violation(v)
+
     def body(case: dict) -> None:
         c = _exact_record(ctx, case)
         if c is not None and c.fails:
@@ -1515,7 +1562,7 @@ def run(ctx: Ctx) -> None:
     shard_run(ctx, _hyp_e2e_shard, extra=(1 if ctx.quick else 15,))
 
 
-_EVAL = {"exact": exact_eval, "range": range_eval, "ser": ser_eval, "e2e": e2e_eval}
+_EVAL = {"exact": exact_eval, "range": range_eval, "ser": ser_eval, "e2e": e2e_eval, "keys": keys_eval}
 
 
 def replay(ctx: Ctx, case: dict) -> None:
